@@ -74,6 +74,9 @@ class Pipe:
                 if b == 1:          # keep this stage on the previous line
                     out[-1] += " |> " + s
                 else:
+                    # the line before a continuation line may end with a comment, and blank / comment lines may precede it
+                    out[-1] += trail(ch)
+                    out.extend(noise(ch, ind))
                     out.append(ind + ("" if mode == 1 else "    ") + "|> " + s)
         out[-1] += trail(ch)
         return out
@@ -118,8 +121,10 @@ class Let:
 
 
 class If:
-    def __init__(self, cond, then, els=None, elifs=()):
+    def __init__(self, cond, then, els=None, elifs=(), force_one=False):
         self.cond, self.then, self.els, self.elifs = cond, then, els, list(elifs)
+        self.force_one = force_one         # always on one line (an if without else that ends the then-block of an if WITH else: its
+                                           # several-line form is the known finding dangling-else-inner-if-only)
 
     def single(self):
         return False
@@ -141,7 +146,7 @@ class If:
             esub = ind + INDENTS[ch.pick(len(INDENTS))]
             el = self.els.lines(ch, esub)
             el_sub = esub
-        if oneline == 1 and can_one:
+        if (oneline == 1 or self.force_one) and can_one:
             t = [x for x in tl if x.strip() and not x.strip().startswith(("//", "/*", "over", "*/"))]
             # one-line form drops the noise lines of the branches (they are layout, not content)
             tx = self.then.stmts[0].text
@@ -333,6 +338,7 @@ def docs():
             Let("w", E("weight m t")),
             If("w > 5", B(E("frt.Println \"heavy\""), E("frt.Println \"really\""))),
             If("w > 50", B(E("frt.Println \"very heavy\"")), B(E("frt.Println \"not so\""))),
+            If("w > 7", B(E("frt.Println \"seven\""), If("w > 8", B(E("frt.Println \"eight\"")), force_one=True)), B(E("frt.Println \"low\""))),
             E("w"))),
         Fn("main ()", B(Pipe("report Strict (Num 7)", ["frt.Printf1 \"%d\\n\""]),
                         Pipe("Op \"*\"", ["report Loose", "frt.Printf1 \"%d\\n\""]))),
